@@ -21,6 +21,10 @@ MODULES = ("ibldsp.fourier", "ibldsp.utils", "ibldsp.voltage", "ibldsp.waveforms
 # file-bound, plotting or generator-returning entry points: their result is not a function of the arguments alone
 SKIP = {"decompress_destripe_cbin", "detect_bad_channels_cbin", "extract_wfs_cbin", "plot_peaktiptrough", "plot_wiggle", "plot_voltage", "double_wiggle",
         "WindowGenerator", "NP2Converter", "NP2Reconstructor"}
+# spikeglx: only the helpers that derive quantities from a parsed header / from arrays (everything else there is bound to files)
+ALLOW = {"spikeglx": ("geometry_from_meta", "split_sync", "_get_neuropixel_version_from_meta", "_get_type_from_meta", "_get_fs_from_meta", "_get_nchannels_from_meta",
+                      "_get_sync_trace_indices_from_meta", "_conversion_sample2v_from_meta", "_get_max_int_from_meta", "_map_channels_from_meta",
+                      "_split_geometry_into_shanks", "_get_savedChans_subset")}
 MAX_BYTES = 6 << 20        # arguments of one recorded call
 PER_FUNCTION = 7
 PER_CASE = 60
@@ -33,6 +37,7 @@ class _State:
     replaying = False
     skipped_args = 0
     installed = False
+    twin = None
 
 
 def _plain(o, budget):
@@ -144,14 +149,51 @@ def install():
             extra.append(importlib.import_module(mn))
         except Exception:
             pass
-    for m in mods:
+    allow_mods = []
+    for mn in ALLOW:
+        try:
+            allow_mods.append(importlib.import_module(mn))
+        except Exception:
+            pass
+    for m in mods + allow_mods:
         for name, fn in list(vars(m).items()):
-            if name.startswith("_") or name in SKIP or not isinstance(fn, types.FunctionType) or fn.__module__ != m.__name__:
+            if not isinstance(fn, types.FunctionType) or fn.__module__ != m.__name__:
+                continue
+            if m.__name__ in ALLOW:
+                if name not in ALLOW[m.__name__]:
+                    continue
+            elif name.startswith("_") or name in SKIP:
                 continue
             w = _wrap(f"{m.__name__}.{name}", fn)
-            for other in mods + extra:
+            for other in mods + extra + allow_mods:
                 if getattr(other, name, None) is fn:
                     setattr(other, name, w)
+
+
+LIBTOP = ("ibldsp", "spikeglx", "neuropixel", "neurowaveforms")
+
+
+def _twin():
+    """a second, private instance of the library modules (fresh module globals: nothing any earlier call may have left behind), imported once per worker"""
+    import sys
+    if _State.twin is not None:
+        return _State.twin
+    saved = {k: v for k, v in sys.modules.items() if k.split(".")[0] in LIBTOP}
+    for k in saved:
+        del sys.modules[k]
+    tw = {}
+    try:
+        for mn in MODULES + tuple(ALLOW):
+            try:
+                tw[mn] = importlib.import_module(mn)
+            except Exception:
+                pass
+    finally:
+        for k in [k for k in sys.modules if k.split(".")[0] in LIBTOP]:
+            del sys.modules[k]
+        sys.modules.update(saved)
+    _State.twin = tw
+    return tw
 
 
 def begin_case():
@@ -185,10 +227,33 @@ def end_case():
                 viol.append({"key": f"call-history:{name.split('.', 1)[-1]}:result-depends-on-earlier-calls",
                              "msg": f"{name}{_brief(a, k)}: the same call made again after the other calls of the case returns another value "
                                     f"({_diff(out, again)}): something is kept from one call to the next", "detail": {}})
+        # ... and once more on a second instance of the library that has seen none of this case's calls, latest call first: a value that is merely REMEMBERED
+        # (a table memoised under too coarse a key answers every later call with the first caller's value - and keeps doing so when asked again) repeats
+        # itself faithfully above, but not in a module whose history is another one
+        twin_judged = 0
+        if not viol:
+            tw = _twin()
+            for name, fn, (a, k), out in reversed(st.records):
+                mn, fname = name.rsplit(".", 1)
+                tfn = getattr(tw.get(mn), fname, None)
+                if tfn is None:
+                    continue
+                try:
+                    other = tfn(*copy.deepcopy(a), **copy.deepcopy(k))
+                except Exception:
+                    continue        # (what the live function returned is judged by the check itself)
+                r = same(out, other)
+                if r is None:
+                    continue
+                twin_judged += 1
+                if not r:
+                    viol.append({"key": f"call-history:{name.split('.', 1)[-1]}:differs-from-a-fresh-instance",
+                                 "msg": f"{name}{_brief(a, k)}: a second instance of the library that has seen none of the earlier calls returns another value for the "
+                                        f"same arguments ({_diff(out, other)}): the result depends on what was called before", "detail": {}})
     finally:
         st.replaying = False
         st.records = []
-    return viol[:3], {"call_history_calls_recorded": seen, "call_history_calls_repeated_and_compared": judged,
+    return viol[:3], {"call_history_calls_compared_with_fresh_instance": twin_judged, "call_history_calls_recorded": seen, "call_history_calls_repeated_and_compared": judged,
                       "call_history_results_not_comparable": unjudged, "call_history_calls_not_recorded_foreign_arguments": st.skipped_args}
 
 
